@@ -33,6 +33,12 @@ def tpl_flushc(x2, a2, x3, a3, x4, a4, _twin=False):
     return _run(2, 3, 2, [(NOP, 0), (x2, a2), (x3, a3), (x4, a4)], 9, 1, _twin)
 
 
+def tpl_flusho(x2, a2, x3, a3, x4, a4, _twin=False):
+    """Prologue: task 0 has ended and sits in its slow end callback, a first flush() waits for it; meanwhile task 1
+    ended and completed its callbacks.  Then three symbolic steps (typically a second, overlapping flush)."""
+    return _run(2, 3, 2, [(NOP, 0), (x2, a2), (x3, a3), (x4, a4)], 9, 2, _twin)
+
+
 def _run(size, cb, n1, steps, t, pro, _twin):
     w = World("c13.flush")
     code = 0
@@ -93,6 +99,12 @@ def _run(size, cb, n1, steps, t, pro, _twin):
                 it.cancel(0)
                 it.cancel(1)
                 w.settle()
+            elif pro == 2:
+                w.settle()
+                it.release(0); w.settle()
+                it.flush(True); w.settle()
+                it.release(1); w.settle()
+                it.cb_release(1); w.settle()
             drive(w, it, ALPHA, steps, t, idle)
         except Excluded as e:
             w.excluded = str(e)
@@ -137,6 +149,12 @@ def families(tier):
         partsc = parts_product(x2=range(NOP), x3=range(NOP))
     famc = Family(name="flushc", fn="tpl_flushc", params=PC, pre=prec, parts=partsc,
                   twin_pre=["x2 == 3", "x3 == 3", "x4 == 4", "a3 == 1"], twin_args=[3, 0, 3, 1, 4, 0])
-    return [famc, Family(name="flush", fn="tpl_flush", params=P, pre=pre, parts=parts,
+    famo = Family(name="flusho", fn="tpl_flusho", params=PC,
+                  pre=(["3 <= x2 <= 5 or x2 == %d" % NOP, "0 <= a2 <= 1", "3 <= x3 <= 5 or x3 == %d" % NOP, "0 <= a3 <= 1", "x4 == %d" % NOP, "a4 == 0"]
+                       if not thorough else
+                       ["0 <= x2 <= %d" % NOP, "-1 <= a2 <= 2", "0 <= x3 <= %d" % NOP, "-1 <= a3 <= 2", "0 <= x4 <= %d" % NOP, "-1 <= a4 <= 2"]),
+                  parts=parts_product(x2=(3, 4, 5, NOP)) if not thorough else parts_product(x2=range(NOP + 1), x3=range(NOP + 1)),
+                  twin_pre=["x2 == 4"], twin_args=[4, 0, NOP, 0, NOP, 0])
+    return [famc, famo, Family(name="flush", fn="tpl_flush", params=P, pre=pre, parts=parts,
                    twin_pre=["cb == 3", "n1 == 2", "x2 == 1", "x3 == 3", "x4 == 4", "x5 == %d" % NOP],
                    twin_args=[2, 3, 2, 1, 0, 3, 0, 4, 0, NOP, 0, 5])]
